@@ -30,6 +30,7 @@ pub fn entries() -> Vec<(&'static str, crate::EntryFn)> {
         ("eco", entry_eco),
         ("eco_http", entry_eco_http),
         ("eco_http6", entry_eco_http6),
+        ("eco_host", entry_eco_host),
     ]
 }
 
@@ -384,7 +385,19 @@ enum EcoPeer {
 /// `eco_http <port (unused)> <retries (unused)> <script>` / `eco_http6 …`: the real `eco::query_with_timeout` against
 /// a one-shot HTTP server on 127.0.0.1 / [::1] (ephemeral port).  Prints `<result> ;; H:<request line>|<Host header>`
 /// with the port replaced by `P` (`H:-` when no request arrived).
-fn eco_http_with(args: &[&str], v6: bool) -> String {
+fn eco_http_with(args: &[&str], v6: bool) -> String { eco_http_host(args, v6, None) }
+
+/// `eco_host <host name hex> <retries (unused)> <script>`: the same over IPv4 with the given host name in the request
+/// settings, the server listening on 127.0.0.2 (NOT what any loopback name resolves to): the request must arrive at the
+/// caller's address whatever the name is
+fn entry_eco_host(args: &[&str]) -> String {
+    let Some(name) = args.first().and_then(|h| unhex(h)).and_then(|b| String::from_utf8(b).ok()) else { return "bad-case".into() };
+    let mut a: Vec<&str> = vec!["0"];
+    a.extend_from_slice(&args[1 ..]);
+    eco_http_host(&a, false, Some(name))
+}
+
+fn eco_http_host(args: &[&str], v6: bool, host_name: Option<String>) -> String {
     use gamedig::verif_hook::{ConnScript, Delivery};
     use std::io::{Read, Write};
     use std::sync::atomic::{AtomicBool, Ordering};
@@ -408,6 +421,8 @@ fn eco_http_with(args: &[&str], v6: bool) -> String {
     };
     let ip: std::net::IpAddr = if v6 {
         std::net::Ipv6Addr::LOCALHOST.into()
+    } else if host_name.is_some() {
+        std::net::Ipv4Addr::new(127, 0, 0, 2).into()
     } else {
         std::net::Ipv4Addr::LOCALHOST.into()
     };
@@ -469,8 +484,16 @@ fn eco_http_with(args: &[&str], v6: bool) -> String {
         }
     };
     let t = std::time::Duration::from_millis(300);
-    let settings = Some(gamedig::protocols::types::TimeoutSettings::new(Some(t), Some(t), Some(t), 0).unwrap());
-    let res = eco::query_with_timeout(&ip, Some(port), &settings);
+    // (`td=` on the case line: those durations instead — only sensible with a peer that answers)
+    let settings = crate::net::timeout_override(0)
+        .or_else(|| Some(gamedig::protocols::types::TimeoutSettings::new(Some(t), Some(t), Some(t), 0).unwrap()));
+    let res = match host_name {
+        None => eco::query_with_timeout(&ip, Some(port), &settings),
+        Some(name) => {
+            let extra = gamedig::protocols::types::ExtraRequestSettings::default().set_hostname(name);
+            eco::query_with_timeout_and_extra_settings(&ip, Some(port), &settings, Some(extra.into()))
+        }
+    };
     stop.store(true, Ordering::SeqCst);
     let request = server.and_then(|h| h.join().ok().flatten());
     let trace = match request {
